@@ -115,7 +115,7 @@ PROPS = {
     },
     "C07": {
         "modules": ["Qvnt.Props.C07", "Qvnt.Props.Code.C07"],
-        "tie": [tie2(r"quant_(get_probabilities|get_absolute|measure_mask|measure_mask_weights|collapse_mask|rescale|sample_all)_eq|proposal_eq", r"UNSUPPORTED quant\.rs: register/quant\.rs::(collapse_mask|rescale|measure_mask|get_absolute|get_probabilities|sample_all):", creg=True)],
+        "tie": [tie2(r"quant_(get_probabilities|get_absolute|measure_mask|measure_mask_weights|collapse_mask|rescale|sample_all)_eq|proposal_eq", r"UNSUPPORTED quant\.rs: register/quant\.rs::(collapse_mask|rescale|measure_mask|measure_mask\[weights\]|get_absolute|get_probabilities|sample_all):", creg=True)],
         "suites": [suite("meas", dict(count=200, max_n=5), dict(count=4000, max_n=8)),
                    suite("born", dict(count=12, shots=2048), dict(count=300, shots=16384))],
         "mismatch_tags": [r"probs", r"measure.*"],
@@ -128,7 +128,7 @@ PROPS = {
         "design_ref": "DESIGN.md section 5, C07",
     },
     "C08": {
-        "modules": ["Qvnt.Props.C08"],
+        "modules": ["Qvnt.Props.C08", "Qvnt.Props.Code.C08"],
         "tie": [tie(r"forEachPar_eq|forEachTwins_true", sources=r"UNSUPPORTED dispatch\.rs"), tie2(r"parTwins_all|th_and_eq|quant_num_threads_eq", r"UNSUPPORTED (.*parallel arm differs|quant\.rs: register/quant\.rs::(and|num_threads))")],
         "suites": [suite("c08", dict(count=250, max_n=7), dict(count=2500, max_n=8, big=1))],
         "mismatch_tags": [r"threads", r"par", r"qreg"],
